@@ -16,6 +16,7 @@ struct Params {
     bool greater = false;  // comparator direction
     unsigned threads = 1;
     size_t oversampling = 10;
+    unsigned layout = 0; // target mergesort_iters only: deque front offset / guard margins / build order (not part of the statement's domain)
 };
 
 //! type-neutral element: key decides the order, tag = original index
@@ -41,5 +42,17 @@ void reset_globals(const Params& p);
 Lifetime sort_int(const Params& p, std::vector<Item>& items);
 Lifetime sort_kt(const Params& p, std::vector<Item>& items);
 Lifetime sort_rec(const Params& p, std::vector<Item>& items);
+
+// Target mergesort_iters (C06_types_iters_*.cpp): the same call on ranges that are NOT std::vector iterators, with a
+// comparator that owns state. Each sorts a SUB-range [lead, lead + n) of a larger container whose other elements are
+// guards that must stay untouched (C06/write-outside-range).
+//   sort_deque_kt   (key,tag) in a std::deque (512-byte blocks, begin moved off the block start by pop_front)
+//   sort_rev_kt     (key,tag) through std::reverse_iterator over a std::vector (the result is read back reversed)
+//   sort_deque_str  record owning a std::string (destructive move, live-instance counter) in a std::deque
+//   sort_ptr_str    the same record through raw pointers into the middle of a heap array
+Lifetime sort_deque_kt(const Params& p, std::vector<Item>& items);
+Lifetime sort_rev_kt(const Params& p, std::vector<Item>& items);
+Lifetime sort_deque_str(const Params& p, std::vector<Item>& items);
+Lifetime sort_ptr_str(const Params& p, std::vector<Item>& items);
 
 } // namespace c06
